@@ -1582,6 +1582,17 @@ class C10S(PropOracle):
             self.holder = who
 
 
+    def on_fremove(self, w, vp, d):
+        # JADE never deletes a soft-lock marker itself (release is the lock library's business): a process that removes
+        # the cluster lock while another live process is inside the critical section has broken mutual exclusion
+        rel = d["rel"]
+        if not rel.endswith("cluster_config.json.lock"):
+            return
+        owner = w.sim.marker_owner.get(w.rootp + rel)
+        if owner is not None and owner is not vp and owner.status == "ready":
+            self.v(w, f"{vp.name} removed {rel} while {owner.name} holds the cluster lock (inside its critical section)", "lock-removed-by-other")
+
+
 ORACLES["C10S"] = C10S
 
 
